@@ -16,6 +16,7 @@ import z3
 
 from vc.core import Unsupported
 from vc.pyvc.values import (
+    SOptRec, SOptTuple,
     SV, SRec, SObj, SList, Seq, Lit, Loop, Binder, SSet, SMap, SSorted, SChunk, SBatched, SqlText, SRepeat,
     SLen, Slot, Sym, LITS, SORTS, UStr, Meta, EMPTY_META, is_sym, truthy, ite, val_eq, lift, mk, fresh_name,
     z_and, z_or, z_not, z_bool, SeqBase,
@@ -123,6 +124,12 @@ def _tname(obj):
 
 def getitem(it, obj, idx, node):
     ctx = it.ctx
+    if isinstance(obj, SOptRec):
+        it.safety_check(z_bool(obj.present), TypeError, node, 'subscript of None (optional record)')
+        return getitem(it, obj.rec, idx, node)
+    if isinstance(obj, SOptTuple):
+        it.safety_check(z_bool(obj.present), TypeError, node, "'NoneType' object is not subscriptable")
+        return getitem(it, obj.elem, idx, node)
     if isinstance(obj, SRec):
         if is_sym(idx):
             raise Unsupported('record subscript with symbolic key')
@@ -931,13 +938,14 @@ def enumerate_seq(it, seq: Seq, start):
     lit = loop.kids[0]
     guard = z_and(loop.guard, lit.guard)
     s = lift(start, 'int').z
-    if guard is True or z3.is_true(guard):
+    if guard is True or z3.is_true(guard) or not I.contains_binder(SV('bool', z_bool(guard)), [b.var]):
         lo = range_lower(b)
         pos = b.var - lo if lo is not None else None
         if pos is None:
             raise Unsupported('enumerate over a sequence without index range')
         idx = SV('int', z3.simplify(pos + s))
-        return Seq([Loop([b], True, [Lit((idx, lit.elem))], loop.order, loop.unordered)], label='enumerate')
+        return Seq([Loop([b], loop.guard, [Lit((idx, lit.elem), lit.guard)], loop.order, loop.unordered)],
+                   label='enumerate')
     # filtered: rank function
     rank = rank_function(b, guard)
     idx = SV('int', rank(b.var) + s)
@@ -972,21 +980,71 @@ class _Rank:
 def rank_function(b: Binder, guard):
     """rank(i) = number of j < i (in range) with guard(j).  Canonical name from the structure so that the code
     and the specification obtain the same symbol.  Axioms: rank(lo) = 0; rank(i+1) = rank(i) + [guard(i)]."""
-    params = free_outer_vars(guard, b.var)
-    gkey = z3.substitute(guard, (b.var, z3.Int('$i'))).sexpr() + '|' + \
-        z3.substitute(b.constraint, (b.var, z3.Int('$i'))).sexpr()
+    iv = z3.Int('$i')
+    outer = free_consts([z_bool(guard), b.constraint], exclude=[b.var])
+    osub = [(o, z3.Const(f'$o{k}', o.sort())) for k, o in enumerate(outer)]
+    gnorm = z3.substitute(z_bool(guard), (b.var, iv), *osub)
+    cnorm = z3.substitute(b.constraint, (b.var, iv), *osub)
+    gkey = gnorm.sexpr() + '|' + cnorm.sexpr()
+    if gkey not in _rank_cache:
+        # unify with an earlier rank function over the same range whose filter is provably equivalent
+        for okey, orank in _rank_cache.items():
+            if orank.cnorm.sexpr() != cnorm.sexpr():
+                continue
+            sv = z3.Solver()
+            sv.set('timeout', 2000)
+            sv.add(*LITS.axioms())
+            sv.add(cnorm)
+            sv.add(gnorm != orank.gnorm)
+            if sv.check() == z3.unsat:
+                _rank_cache[gkey] = orank
+                break
     if gkey not in _rank_cache:
         name = f'rank#{len(_rank_cache)}'
-        f = z3.Function(name, z3.IntSort(), z3.IntSort())
-        lo = range_lower(b)
-        if lo is None:
-            raise Unsupported('rank over a sequence without index range')
-        j = z3.Int('$j')
-        gj = z3.substitute(guard, (b.var, j))
-        cj = z3.substitute(b.constraint, (b.var, j))
-        axioms = [f(lo) == 0,
-                  z3.ForAll([j], z3.Implies(cj, f(j + 1) == f(j) + z3.If(gj, 1, 0)), patterns=[f(j)])]
-        _rank_cache[gkey] = _Rank(f, axioms)
+        osorts = [o.sort() for o in outer]
+        f = z3.Function(name, *osorts, z3.IntSort(), z3.IntSort())
+        rk = _Rank(f, [])
+        rk.gnorm, rk.cnorm, rk.nouter = gnorm, cnorm, len(outer)
+        _rank_cache[gkey] = rk
+    rk = _rank_cache[gkey]
+    if rk.nouter != len(outer):
+        raise Unsupported('rank function unification with a different number of parameters')
+    lo = range_lower(b)
+    if lo is None:
+        raise Unsupported('rank over a sequence without index range')
+    j = z3.Int('$j')
+    gj = z3.substitute(z_bool(guard), (b.var, j))
+    cj = z3.substitute(b.constraint, (b.var, j))
+    f = rk.f
+    inst = _Rank(lambda i, f=f, outer=tuple(outer): f(*outer, i),
+                 [f(*outer, lo) == 0,
+                  z3.ForAll([j], z3.Implies(cj, f(*outer, j + 1) == f(*outer, j) + z3.If(gj, 1, 0)),
+                            patterns=[f(*outer, j)])])
+    return inst
+
+
+def free_consts(terms, exclude=()) -> list:
+    """Uninterpreted constants occurring in the terms (in order of first occurrence), except literals."""
+    ex = {e.get_id() for e in exclude}
+    out, seen = [], set()
+    stack = list(reversed(terms))
+    while stack:
+        x = stack.pop()
+        if x.get_id() in seen:
+            continue
+        seen.add(x.get_id())
+        if z3.is_quantifier(x):
+            stack.append(x.body())
+        elif z3.is_app(x):
+            if x.num_args() == 0 and x.decl().kind() == z3.Z3_OP_UNINTERPRETED:
+                if x.get_id() not in ex and not x.decl().name().startswith('lit_'):
+                    out.append(x)
+            else:
+                stack.extend(reversed(x.children()))
+    return out
+
+
+def _unused_rank():
     return _rank_cache[gkey]
 
 
@@ -1196,13 +1254,16 @@ def first_of_seq(it, seq: Seq, default, node):
     if len(leaves) != 1:
         raise Unsupported('first element of a composite symbolic sequence')
     binders, guard, elem, loops = leaves[0]
-    has = it.ctx.branch(ne) if not it.ctx.generic else None
-    if has is None:
-        raise Unsupported('next() inside a generic iteration')
-    if not has:
-        if default is I._MISSING:
-            raise PyRaise(StopIteration, (), node)
-        return default
+    generic_mode = bool(it.ctx.generic)
+    if generic_mode:
+        if default is not None:
+            raise Unsupported('next()/fetchone() with a default other than None inside a generic iteration')
+    else:
+        has = it.ctx.branch(ne)
+        if not has:
+            if default is I._MISSING:
+                raise PyRaise(StopIteration, (), node)
+            return default
     # instantiate the binders with fresh witnesses
     subst = []
     for b in binders:
@@ -1217,10 +1278,25 @@ def first_of_seq(it, seq: Seq, default, node):
         else:
             w = z3.Int(fresh_name('first_' + str(b.var).split('!')[0]))
         subst.append((b.var, w))
-    for b in binders:
-        it.ctx.assume(z3.substitute(b.constraint, *subst))
+    wit = [z3.substitute(b.constraint, *subst) for b in binders]
     if guard is not True:
-        it.ctx.assume(z3.substitute(z_bool(guard), *subst))
+        wit.append(z3.substitute(z_bool(guard), *subst))
+    if generic_mode:
+        # the witnesses are functions of the enclosing iteration: skolemise over the active binders
+        outer = [b.var for b in it.ctx.all_binders()]
+        if outer:
+            sk = []
+            for (bv, w) in subst:
+                f = z3.Function(str(w) + '$sk', *[o.sort() for o in outer], z3.IntSort())
+                sk.append((w, f(*outer)))
+            wit = [z3.substitute(x, *sk) for x in wit]
+            subst = [(bv, dict((a.get_id(), b_) for a, b_ in sk)[w.get_id()]) for bv, w in subst]
+        it.ctx.assume(z3.Implies(z_and(*[z_bool(a) for a in it.ctx.assumptions()[len(it.ctx.pc):]], ne),
+                                 z_and(*wit)))
+        first = subst_value(elem, subst)
+        return SOptTuple(ne, first)
+    for wcons in wit:
+        it.ctx.assume(wcons)
     first = subst_value(elem, subst)
     # A-ORDER-FIRST: for a single-table SELECT without ORDER BY the first row is the one with the least rowid
     if len(binders) == 1 and binders[0].key and binders[0].key[0] == 'table' and \
@@ -1399,6 +1475,8 @@ def rec_get(it, rec, args, kw, node):
         return slot.value
     if z3.is_false(p):
         return default
+    if isinstance(slot.value, SRec) and default is None:
+        return SOptRec(p, slot.value)
     try:
         return ite(p, slot.value, default)
     except Unsupported:
@@ -1429,6 +1507,12 @@ class GuardedSeq(SeqBase):
 
     def leaves(self):
         return self.as_seq().leaves()
+
+
+@method('SOptRec', 'get')
+def optrec_get(it, o, args, kw, node):
+    it.safety_check(z_bool(o.present), AttributeError, node, "'NoneType' object has no attribute 'get'")
+    return rec_get(it, o.rec, args, kw, node)
 
 
 @method('SRec', 'setdefault')
